@@ -1,10 +1,169 @@
-import RsMatterVerif.Model.Tlv
-/-! # C16 — property theorems (first group: the failing witnesses of the old arithmetic) -/
+import RsMatterVerif.Lemmas.Tlv
+/-!
+# C16 — the TLV codec round-trips every value and rejects every malformed input safely
+
+Theorems over `Model/Tlv.lean` (the model of `tlv.rs`, `tlv/read.rs`, `tlv/write.rs` after the
+C16 fix commits).  `NP r` = "`r` is not a panic of any kind": no arithmetic overflow, no failed
+`unwrap!`/`unreachable!`, no out-of-range index, and no exhausted loop fuel (= the loop ends).
+The only hypothesis on the input is `bs.length + 1 < 2^64`, true of every Rust slice
+(`len ≤ isize::MAX`).
+-/
 namespace C16
 open Tlv
 
-/-- the arithmetic of `TLVSequence::len` before the fix overflows on a 9-byte input -/
+/-! ## 0. the model is built on the constants of the sources -/
+
+/-- the value-type / tag-type codes and the control-byte layout used by the model are the ones
+re-extracted from `tlv.rs` on every run (`Generated/Consts.lean`) -/
+theorem consts_agree :
+    2 ^ Consts.tlvTagShiftBits = 32 ∧ Consts.tlvTypeMask + 1 = 32 ∧
+    Consts.tlvVtU8 = (ValueType.uint .w1).code ∧ Consts.tlvVtUtf8l = (ValueType.utf8 .w1).code ∧
+    Consts.tlvVtStr8l = (ValueType.str .w1).code ∧ Consts.tlvVtNull = ValueType.null.code ∧
+    Consts.tlvVtStruct = (ValueType.cont .struct).code ∧ Consts.tlvVtEndCnt = ValueType.endCnt.code ∧
+    Consts.tlvTagFullQual64 = TagType.fullQual64.code ∧ endByte.toNat = Consts.tlvVtEndCnt := by decide
+
+/-! ## 1. the findings, as theorems about the old arithmetic -/
+
+/-- `TLVSequence::len` before the fix: the unchecked `1 + tag + lenlen + value_len` overflows on a
+9-byte input (the model's `Old.elemLen` panics) … -/
 theorem old_len_overflows :
     Old.elemLen [0x13, 0xff, 0xff, 0xff, 0xff, 0xff, 0xff, 0xff, 0xff] = .panic .overflow := by decide
+
+/-- … the fixed one reports `TLVTypeMismatch`, also through `raw_value` of the enclosing struct -/
+theorem fixed_len_rejects :
+    elemLen [0x13, 0xff, 0xff, 0xff, 0xff, 0xff, 0xff, 0xff, 0xff] = .err .mismatch ∧
+    rawValue [0x15, 0x13, 0xff, 0xff, 0xff, 0xff, 0xff, 0xff, 0xff, 0xff] = .err .mismatch ∧
+    containerLen [0x15, 0x13, 0xff, 0xff, 0xff, 0xff, 0xff, 0xff, 0xff, 0xff] = .err .mismatch ∧
+    containerLen [0x30, 0x05, 0x01] = .err .mismatch := by decide
+
+/-! ## 2. no panic, no overflow, no out-of-range access, no unbounded loop -/
+
+/-- checked arithmetic never panics: the element length is a value or an error for every input -/
+theorem elemLen_total (bs : Bytes) : NP (elemLen bs) := elemLen_np bs
+
+/-- every public accessor of `TLVElement` (model) returns a value or an error, never a panic and
+never an exhausted loop, on every byte string -/
+theorem no_panic (bs : Bytes) (h : bs.length + 1 < USIZE) :
+    NP (control bs) ∧ NP (tagOf bs) ∧ NP (valueOf bs) ∧ NP (rawValue bs) ∧ NP (containerLen bs) ∧
+    NP (i8 bs) ∧ NP (u8 bs) ∧ NP (i16 bs) ∧ NP (u16 bs) ∧ NP (i32 bs) ∧ NP (u32 bs) ∧ NP (i64 bs) ∧ NP (u64 bs) ∧
+    NP (f32 bs) ∧ NP (f64 bs) ∧ NP (strOf bs) ∧ NP (utf8Of bs) ∧ NP (octetsOf bs) ∧ NP (boolOf bs) ∧
+    NP (nullOf bs) ∧ NP (isContainerOf bs) ∧ NP (structOf bs) ∧ NP (arrayOf bs) ∧ NP (listOf bs) ∧
+    NP (containerOf bs) ∧ NP (confirmAnon bs) ∧ NP (ctxOf bs) ∧ NP (tryCtx bs) ∧
+    NP (reencode bs) ∧ NP (reencodeIter bs) :=
+  ⟨control_np bs, tagOf_np bs, valueOf_np bs h, rawValue_np bs h, containerLen_np bs h,
+   i8_np bs, u8_np bs, i16_np bs, u16_np bs, i32_np bs, u32_np bs, i64_np bs, u64_np bs,
+   f32_np bs, f64_np bs, strOf_np bs, utf8Of_np bs, octetsOf_np bs, boolOf_np bs,
+   nullOf_np bs, isContainerOf_np bs, structOf_np bs, arrayOf_np bs, listOf_np bs,
+   containerOf_np bs, confirmAnon_np bs, ctxOf_np bs, tryCtx_np bs,
+   reencode_np bs h, reencodeIter_np bs h⟩
+
+/-- the same for the `TLVSequence` API: element iteration step, skipping, lookup by context tag
+(`find_ctx`, `ctx`, `scan_ctx`) and `raw_value` -/
+theorem no_panic_seq (seq : Bytes) (ctx : Nat) (h : seq.length + 1 < USIZE) :
+    NP (current seq) ∧ NP (containerNext seq) ∧ NP (findCtx seq ctx) ∧ NP (seqCtx seq ctx) ∧
+    NP (scanCtx seq ctx) ∧ NP (rawValue seq) ∧ (∀ r ∈ elements seq, NP r) ∧ (∀ r ∈ tlvElements seq, NP r) :=
+  ⟨current_np seq, containerNext_np seq h, findCtx_np seq ctx h, seqCtx_np seq ctx h,
+   scanCtx_np seq ctx h, rawValue_np seq h, elements_item_np seq h, tlvElements_item_np seq h⟩
+
+/-- decoding a whole tree with the public accessors terminates with a tree or an error for every
+input and every depth cap -/
+theorem decode_total (d : Nat) (bs : Bytes) (h : bs.length + 1 < USIZE) : NP (decodeTree d bs) :=
+  decodeTree_np d bs h
+
+example : ∃ bs : Bytes, bs.length + 1 < USIZE ∧ (decodeTree 40 bs).isOk = true :=
+  ⟨[0x15, 0x24, 0x01, 0x05, 0x18], by decide, by decide⟩
+example : ∃ bs : Bytes, bs.length + 1 < USIZE ∧ (decodeTree 40 bs).isOk = false :=
+  ⟨[0x15, 0x13, 0xff, 0xff, 0xff, 0xff, 0xff, 0xff, 0xff, 0xff], by decide, by decide⟩
+
+/-! ## 3. iteration is finite and ends at the first error -/
+
+/-- `seq.iter()` consumed to the end is: at most `len` elements, then possibly **one** error, then
+nothing (the loop fuel `len + 1` of the model is never used up).  Every element is a suffix of the
+sequence and not longer than it. -/
+theorem iter_terminates (seq : Bytes) (h : seq.length + 1 < USIZE) :
+    ∃ (oks : List Bytes) (tail : List (Res Bytes)),
+      elements seq = oks.map .ok ++ tail ∧ (tail = [] ∨ ∃ e, tail = [.err e]) ∧
+      oks.length ≤ seq.length ∧ (∀ e ∈ oks, e <:+ seq) := by
+  obtain ⟨oks, tail, e1, e2, e3, _⟩ := elements_spec seq h
+  refine ⟨oks, tail, e1, e2, e3, ?_⟩
+  intro e he
+  apply elementsF_suffix (seq.length + 1) seq e
+  show Res.ok e ∈ elements seq
+  rw [e1]; exact List.mem_append_left _ (List.mem_map.mpr ⟨e, he, rfl⟩)
+
+/-- after the item that is an error the iterator is empty (`next()` on the emptied state is `None`) -/
+theorem iter_fused (seq : Bytes) (e : Err) (h : (iterNext seq).1 = some (.err e)) :
+    (iterNext (iterNext seq).2).1 = none := by
+  unfold iterNext at h ⊢
+  cases hc : current seq with
+  | ok cur =>
+    cases hn : containerNext seq with
+    | ok s' => simp only [hc, hn] at h; split at h <;> simp at h
+    | err e' => decide
+    | panic p => decide
+  | err e' => decide
+  | panic p => decide
+
+example : elements [0x13, 0x02, 0, 0, 0, 0, 0, 0, 0, 0x14] = [.err .mismatch] := by decide
+example : elements [0x24, 0x01, 0x05, 0x24, 0x02, 0x06, 0x18] =
+    [.ok [0x24, 0x01, 0x05, 0x24, 0x02, 0x06, 0x18], .ok [0x24, 0x02, 0x06, 0x18]] := by decide
+
+/-- the same shape for `seq.tlv_iter()`: finitely many TLVs, at most one error, at the end -/
+theorem tlv_iter_terminates (seq : Bytes) (h : seq.length + 1 < USIZE) :
+    ∃ (oks : List (Tag × TVal)) (tail : List (Res (Tag × TVal))),
+      tlvElements seq = oks.map .ok ++ tail ∧ (tail = [] ∨ ∃ e, tail = [.err e]) ∧ oks.length ≤ seq.length :=
+  tlvElements_spec seq h
+
+/-! ## 4. reported lengths and returned slices lie within the input -/
+
+/-- the length reported for an element (`container_len`) never exceeds the input -/
+theorem len_within (bs : Bytes) (n : Nat) (h : containerLen bs = .ok n) : n ≤ bs.length := by
+  unfold containerLen at h
+  rcases Res.bind_eq_ok.mp h with ⟨c, _, h2⟩
+  rcases Res.bind_eq_ok.mp h2 with ⟨v, _, h3⟩
+  rcases Res.bind_eq_ok.mp h3 with ⟨len, _, h4⟩
+  split at h4
+  · simp at h4; omega
+  · simp at h4
+
+example : containerLen [0x15, 0x24, 0x01, 0x05, 0x18, 0xff] = .ok 5 := by decide
+
+/-- `raw_value()` is a contiguous sub-slice of the input -/
+theorem raw_value_within (bs v : Bytes) (h : rawValue bs = .ok v) : v <:+: bs := by
+  unfold rawValue at h
+  rcases Res.bind_eq_ok.mp h with ⟨c, hc, h2⟩
+  exact containerValue_infix h2 (control_ok_ne_nil hc)
+
+/-- `str()`, `utf8()`, `octets()` return contiguous sub-slices of the input -/
+theorem str_within (bs v : Bytes) (h : strOf bs = .ok v ∨ utf8Of bs = .ok v ∨ octetsOf bs = .ok v) : v <:+: bs := by
+  rcases h with h | h | h
+  · unfold strOf at h
+    rcases Res.bind_eq_ok.mp h with ⟨c, hc, h2⟩
+    split at h2
+    · simp at h2
+    · exact value_infix h2 (control_ok_ne_nil hc)
+  · unfold utf8Of at h
+    rcases Res.bind_eq_ok.mp h with ⟨c, hc, h2⟩
+    split at h2
+    · simp at h2
+    · rcases Res.bind_eq_ok.mp h2 with ⟨s, hs, h3⟩
+      split at h3
+      · simp at h3; subst h3; exact value_infix hs (control_ok_ne_nil hc)
+      · simp at h3
+  · unfold octetsOf at h
+    rcases Res.bind_eq_ok.mp h with ⟨c, hc, h2⟩
+    split at h2
+    · simp at h2
+    · exact value_infix h2 (control_ok_ne_nil hc)
+
+/-- the content of a container (`structure()/array()/list()/container()`) is a proper suffix -/
+theorem container_within (bs seq : Bytes) (h : containerOf bs = .ok seq) : seq <:+ bs ∧ seq.length < bs.length := by
+  unfold containerOf at h
+  rcases Res.bind_eq_ok.mp h with ⟨c, hc, h2⟩
+  split at h2
+  · exact ⟨nextEnter_suffix h2, nextEnter_lt (control_ok_ne_nil hc) h2⟩
+  · simp at h2
+
+example : containerOf [0x15, 0x24, 0x01, 0x05, 0x18] = .ok [0x24, 0x01, 0x05, 0x18] := by decide
 
 end C16
